@@ -309,6 +309,7 @@ func routeDiff(c *Ctx, f *Fed, schemas []*ast.Schema, order []int, internal *ast
 		keys = append(keys, []string{parts[0], parts[1]})
 	}
 	// also ask the model about every declared field (nothing may be missing from the table)
+	asked := map[string]bool{}
 	for _, k := range order {
 		for n, d := range schemas[k].Types {
 			for _, fd := range d.Fields {
@@ -316,13 +317,43 @@ func routeDiff(c *Ctx, f *Fed, schemas []*ast.Schema, order []int, internal *ast
 					keys = append(keys, []string{n, fd.Name})
 				}
 			}
+			// __typename can be asked at every service that defines the type, whatever its kind (a union or an
+			// enum has no fields of its own, and a query may still select __typename on a union-typed field)
+			if _, ok := f.Locations[n+".__typename"]; !ok && !asked[n] {
+				asked[n] = true
+				keys = append(keys, []string{n, "__typename"})
+			}
 		}
 	}
 	ans, err := c.Drv.Call(map[string]interface{}{"op": "route", "sources": srcs, "internal": serSrc(internalURL, internal), "gwTypes": []string{"Node"}, "keys": keys})
 	if err != nil {
 		return "harness: " + err.Error()
 	}
-	for k, v := range ans {
+	// __typename is a field of composite output types only: what the table holds for scalars, enums and input
+	// objects can never be asked for and is not compared
+	composite := map[string]bool{}
+	for _, k := range order {
+		for n, d := range schemas[k].Types {
+			if d.Kind == ast.Object || d.Kind == ast.Interface || d.Kind == ast.Union {
+				composite[n] = true
+			}
+		}
+	}
+	for n, d := range internal.Types {
+		if d.Kind == ast.Object || d.Kind == ast.Interface || d.Kind == ast.Union {
+			composite[n] = true
+		}
+	}
+	var ansKeys []string
+	for k := range ans {
+		ansKeys = append(ansKeys, k)
+	}
+	sort.Strings(ansKeys)
+	for _, k := range ansKeys {
+		v := ans[k]
+		if strings.HasSuffix(k, ".__typename") && !composite[strings.TrimSuffix(k, ".__typename")] {
+			continue
+		}
 		var want []string
 		for _, x := range v.([]interface{}) {
 			want = append(want, x.(string))
